@@ -320,6 +320,29 @@ func c09r3(w *World, rr *RuleRun) {
 		k, ok := ConstInt(as.arg)
 		rr.At(w, as.site, "k reaching the table walk is the constant 8", ok && k == 8, w.TS.Of(as.arg).String())
 	}
+	// nothing reorders the collected contacts between the walk and the truncation: they were
+	// appended nearest bucket first, and cutting to k must drop the farthest ones
+	eachInstr([]*ssa.Function{tcn}, func(_ *ssa.Function, ins ssa.Instruction) {
+		c := callInstrCommon(ins)
+		if c == nil {
+			return
+		}
+		if b, ok := c.Value.(*ssa.Builtin); ok && (b.Name() == "append" || b.Name() == "len" || b.Name() == "cap") {
+			return
+		}
+		for _, a := range c.Args {
+			if st, ok := a.Type().Underlying().(*types.Slice); ok {
+				if _, isNodePtr := st.Elem().Underlying().(*types.Pointer); isNodePtr && strings.HasSuffix(st.Elem().String(), ".node") {
+					o := calleeObj(c)
+					name := "a call"
+					if o != nil {
+						name = o.Name()
+					}
+					rr.At(w, ins, "the collected contacts keep their bucket order until they are cut to k", false, name+" receives the collected slice and may reorder it")
+				}
+			}
+		}
+	})
 	// truncation
 	kT := w.ParamTerm(tcn, "k")
 	for _, b := range tcn.Blocks {
